@@ -119,6 +119,7 @@ bool Prism::Save() {
     LOG(ERROR) << "the trie has not been constructed!";
     return false;
   }
+  RIME_VERIF_CRASHPOINT("prism.save");
   return ShrinkToFit();
 }
 bool Prism::Build(const Syllabary& syllabary,
@@ -227,9 +228,11 @@ bool Prism::Build(const Syllabary& syllabary,
     metadata->spelling_map = spelling_map;
     spelling_map_ = spelling_map;
   }
+  RIME_VERIF_CRASHPOINT("prism.build:before_tag");
   // at last, complete the metadata
   std::strncpy(metadata->format, kPrismFormat,
                prism::Metadata::kFormatMaxLength);
+  RIME_VERIF_CRASHPOINT("prism.build:end");
   return true;
 }
 
